@@ -143,6 +143,9 @@ func (g *G) as() string {
 	return g.blank() + g.R.Pick([]string{"AS", "AS", "AS", "as", "As"}) + g.blank()
 }
 
+// OutputExpr draws one output expression.
+func (g *G) OutputExpr() string { return g.outputExpr() }
+
 func (g *G) outputExpr() string {
 	switch g.R.Intn(12) {
 	case 0, 1:
